@@ -337,3 +337,35 @@ func verifC16Compose(operands int) {
 
 func VerifC16Compose2() { verifC16Compose(2) }
 func VerifC16Compose3() { verifC16Compose(3) }
+
+
+// VerifC16LongGaps: strings far longer than the symbolic bounds - a sentence, a long run of white
+// space (around 16, 32, 64 and 256 bytes) and then more text: accepted exactly when the whole is
+// a sentence (white space may end a path, nothing else may follow).
+func VerifC16LongGaps() {
+	heads := []string{"(a.b)", "a.b", "@type", "a.b^", "a.b / c.d", "( a.b | c.d )"}
+	gaps := []int{15, 16, 17, 31, 32, 33, 63, 64, 65, 255, 256, 257}
+	tails := []string{"", ") junk", "/ c.d", "| (", "x", ",", "/", "^"}
+	head := heads[v.Choice("head", len(heads))]
+	gap := gaps[v.Choice("gap", len(gaps))]
+	tail := tails[v.Choice("tail", len(tails))]
+	ws := []string{" ", " \t\r\n"}[v.Choice("ws", 2)]
+	blank := ""
+	for len(blank) < gap {
+		blank += ws
+	}
+	s := head + blank[:gap] + tail
+	pp, err, panicked := verifParsePath(s)
+	accepted := !panicked && err == nil
+	ref, sentence := refSentence(trimRightWs(s), 3)
+	v.Reach("parsed")
+	if accepted {
+		v.Assert("C16.accept-only-sentences", sentence)
+		if sentence {
+			v.Assert("C16.structure", renderPath(pp) == ref)
+		}
+	} else {
+		v.Assert("C16.reject-is-error", !panicked && err != nil)
+		v.Assert("C16.sentences-accepted", !sentence)
+	}
+}
